@@ -42,6 +42,14 @@ theorem C12_facts :
     Facts.tlcp.recordTypeChangeCipherSpec ≠ Facts.tlcp.recordTypeApplicationData := by
   decide
 
+/-- `c.in.setErrorLocked(c.sendAlert(a))` is "send the alert, then latch the local error" — what the
+model's `failAlert` / `outErrAfter` transcribe — only if `sendAlert` and `sendAlertLocked` consist of
+exactly these statements: no early return, no dependence on `closeNotifySent` or any other state. -/
+theorem C12_facts_sendAlert :
+    Facts.tlcp.rxSendAlertStmts = ["c.out.Lock()", "defer c.out.Unlock()", "if c.config != nil && c.config.OnAlert != nil { c.config.OnAlert(uint8(err), c) }", "return c.sendAlertLocked(err)"] ∧
+    Facts.tlcp.rxSendAlertLockedStmts = ["switch err { case alertNoRenegotiation, alertCloseNotify: c.tmp[0] = alertLevelWarning default: c.tmp[0] = alertLevelError }", "c.tmp[1] = byte(err)", "_, writeErr := c.writeRecordLocked(recordTypeAlert, c.tmp[0:2])", "if err == alertCloseNotify { return writeErr }", "return c.out.setErrorLocked(&net.OpError{Op: \"local error\", Err: err})"] :=
+  ⟨rfl, rfl⟩
+
 /-! ### frames: which fields a call can touch -/
 
 theorem handshake_frame (c : Conn) (cb : Bool) :
